@@ -348,13 +348,40 @@ func (g *sgen) stmt(depth int) {
 	case r < 78:
 		// three-clause loop whose counter comes from the pool (shadowing), optional yielding post
 		name := g.pickName()
+		outer, hasOuter := g.anyVar() // read by the init clause, i.e. in the scope the loop stands in
 		g.push()
 		g.declare(name, true)
 		if g.shadows(name) {
 			g.feats["shadow"] = true
 		}
 		bound := 1 + g.rng.Intn(3)
-		switch g.rng.Intn(4) {
+		switch g.rng.Intn(6) {
+		case 4, 5:
+			// the init clause declares SEVERAL variables: a pool name (which may shadow a variable of the enclosing
+			// scopes, also of the very block the loop stands in) and a fresh counter; with / without condition
+			cnt := fmt.Sprintf("c%d", g.nid())
+			init := fmt.Sprintf("%d", 10*g.nid())
+			if hasOuter {
+				init = fmt.Sprintf("tr.R(%d, %s) + %d", g.nid(), outer.name, 1+g.rng.Intn(5))
+			}
+			switch g.rng.Intn(3) {
+			case 0:
+				g.line("for %s, %s := %s, 0; %s < %d; %s++ {", name, cnt, init, cnt, bound, cnt)
+			case 1:
+				g.line("for %s, %s := %s, 0; ; %s++ {", name, cnt, init, cnt)
+				g.line("\tif %s >= %d {", cnt, bound)
+				g.line("\t\tbreak")
+				g.line("\t}")
+			default:
+				g.line("for %s, %s := %s, 0; ; %s, %s = %s+1, %s+1 {", name, cnt, init, cnt, name, cnt, name)
+				g.line("\tif tr.R(%d, %s) >= %d {", g.nid(), cnt, bound)
+				g.line("\t\tRETNIL")
+				g.line("\t}")
+			}
+			g.line("\t%s += tr.R(%d, %s)", name, g.nid(), cnt)
+			g.feats["for-init-multi-decl"] = true
+			// the pool name is writable inside the loop
+			g.declare(name, false)
 		case 0:
 			// yielding post statement that reads names which the body may shadow (TestForPostScope family)
 			v, ok := g.anyVar()
